@@ -298,7 +298,10 @@ Definition decode_picture (o : dec_opts) (prev : option picture) (r0 : reader)
     let* (trp, r) := (if has opts REFERENCE_PICTURE_SELECTION then decode_trpi r else Ok (None, r)) in
     let* r := (if has opts REFERENCE_PICTURE_SELECTION then let* (_, r) := decode_bcm r in Ok r else Ok r) in
     let* _ := (if has opts REFERENCE_PICTURE_RESAMPLING
-                  || (match prev with Some p => negb (format_eqb (format p) fmt) | None => false end)
+                  || (match prev, fmt with
+                      | Some p, Some _ => negb (format_eqb (format p) fmt)   (* only a retransmitted format can differ *)
+                      | _, _ => false
+                      end)
                then Err EUnimplemented else Ok tt) in
     let* (q, r) := read_bits 8 5 r in
     let* (mux, r) := (match mux with Some m => Ok (m, r) | None => decode_cpm_and_psbi r end) in
